@@ -9,6 +9,7 @@ for PATCH in "$@"; do
   for P in $(/verif/tools/props_for_patch.py $PATCH); do
     VERIF_REPO=$SC /verif/bin/vcgo check $P > /var/tmp/benign-$NAME-$P.log 2>&1
     rc=$?
+    rm -rf /verif/out/$P@$(basename $SC) /verif/out/replaytmp@$(basename $SC)
     echo "$NAME $P exit=$rc $(grep -c '^VIOLATION' /var/tmp/benign-$NAME-$P.log) alarms: $(grep '^VIOLATION' /var/tmp/benign-$NAME-$P.log | head -3 | sed 's/.*obligation=//' | cut -c1-160 | tr '\n' ';')"
   done
   rm -rf $SC
